@@ -55,6 +55,11 @@ pub fn hash_order(m: &HashMap<String, u32>) -> Vec<u32> {
     m.values().copied().collect() // control: hash-ordered iteration
 }
 
+pub fn seeded_map() -> usize {
+    let m: HashMap<u8, u8> = HashMap::new(); // control: ambient source (hash seed) reached only through upstream code
+    m.len()
+}
+
 pub fn unsafe_block(p: *const u8) -> u8 {
     unsafe { *p } // control: hand-written unsafe
 }
